@@ -1107,8 +1107,17 @@ func (e *gluesigEnv) execRun(k int, run gluesigRun) (apksField, opsField string,
 	work := filepath.Join(e.root, fmt.Sprintf("work%d", k))
 	gluesigMust(os.MkdirAll(filepath.Join(work, "tmp"), 0o755))
 	shared := apk.NewCache(true)
-	encApk := func(arch string, ignore bool, nosig []string, keys []isKeyCfg, repos []string) string {
-		return strings.Join([]string{"x" + hx(arch), isBoolS(ignore), isEncList(nosig), gluesigEncKeys(keys), isEncList(repos)}, "/")
+	encApk := func(arch string, ignore bool, nosig []string, keys []isKeyCfg, repos []string, root []gluesigRootKey) string {
+		fields := []string{"x" + hx(arch), isBoolS(ignore), isEncList(nosig), gluesigEncKeys(keys), isEncList(repos)}
+		if len(root) > 0 {
+			// the model derives the key set from the root's files (Glue.keysOfRoot): configured keys + these
+			var rf []string
+			for _, rk := range root {
+				rf = append(rf, "x"+hx(strings.ReplaceAll(rk.Dir, "<arch>", arch))+":x"+hx(rk.Key.Name)+":"+gluesigPemTok(rk.Key.Pem))
+			}
+			fields = append(fields, strings.Join(rf, ","))
+		}
+		return strings.Join(fields, "/")
 	}
 	if run.Op == "apk" {
 		var apks []*apk.APK
@@ -1143,7 +1152,7 @@ func (e *gluesigEnv) execRun(k int, run gluesigRun) (apksField, opsField string,
 			x, err := apk.New(opts...)
 			gluesigMust(err)
 			apks = append(apks, x)
-			enc = append(enc, encApk(a.Arch, a.Ignore, nosig, a.Keys, repos))
+			enc = append(enc, encApk(a.Arch, a.Ignore, nosig, a.Keys, repos, a.Root))
 		}
 		sibs := ""
 		if run.Sibs {
@@ -1269,7 +1278,11 @@ func (e *gluesigEnv) execRun(k int, run gluesigRun) (apksField, opsField string,
 	var enc, all []string
 	var archs []types.Architecture
 	for j, a := range run.Archs {
-		enc = append(enc, encApk(a, run.Ignore, nil, run.Keys, sortedRepos))
+		var root []gluesigRootKey
+		if run.Op == "pl1" {
+			root = run.Root
+		}
+		enc = append(enc, encApk(a, run.Ignore, nil, run.Keys, sortedRepos, root))
 		all = append(all, fmt.Sprint(j))
 		archs = append(archs, gluesigOCIArch(a))
 	}
